@@ -1126,6 +1126,15 @@ func TestOwnership(t *testing.T) {
 					if err == nil {
 						resp.Close()
 					}
+					// whoever asks the pool next: two callers must never be handed the same object
+					if a, b := client.AcquireRequest(), client.AcquireRequest(); a == b {
+						atomic.AddInt64(&bad, 1)
+						first.CompareAndSwap(nil, fmt.Sprintf("after request %s (its response hook failed) the request pool handed the same Request object to two callers: it had been put back twice", id))
+						client.ReleaseRequest(a)
+					} else {
+						client.ReleaseRequest(a)
+						client.ReleaseRequest(b)
+					}
 					vk.Rec.Count("ownership", uint64(g)<<32|uint64(i), true, []string{"response-hook-fails"}, func() any { return map[string]any{"id": id} })
 					continue
 				}
